@@ -46,6 +46,7 @@ type Adapter interface {
 }
 
 type Example struct {
+	Init     string   `json:"init,omitempty"`  // initial model state of this history
 	State    string   `json:"state,omitempty"` // model state before the call
 	History  []string `json:"history"`
 	Call     string   `json:"call"`
@@ -153,7 +154,7 @@ func Run(r io.Reader, module string, ads []Adapter, opt Options) ([]*Summary, er
 
 	var calls []tla.Value
 	parents := map[string][]parent{}
-	var initState *tla.Value
+	inits := map[string]*tla.Value{} // initial states (states nobody discovered), by key
 
 	jobs := make(chan *job, opt.Workers*2)
 	var wg sync.WaitGroup
@@ -281,9 +282,9 @@ func Run(r io.Reader, module string, ads []Adapter, opt Options) ([]*Summary, er
 					if _, ok := parents[key]; !ok {
 						// a state nobody discovered: an initial state
 						parents[key] = nil
-						if initState == nil {
-							cp := *s
-							initState = &cp
+						cp := *s
+						inits[key] = &cp
+						if sum.Init == "" {
 							sum.Init = key
 						}
 					}
@@ -302,8 +303,10 @@ func Run(r io.Reader, module string, ads []Adapter, opt Options) ([]*Summary, er
 					if opt.Sample < 1 && parents[key] != nil && rng.Float64() >= opt.Sample {
 						goto next
 					}
-					jb := &job{state: *s, trs: trs, init: initState}
-					jb.chains = chainsOf(parents, key)
+					jb := &job{state: *s, trs: trs}
+					var root string
+					jb.chains, root = chainsOf(parents, key)
+					jb.init = inits[root]
 					for _, c := range jb.chains {
 						if len(c) > sum.MaxChain {
 							sum.MaxChain = len(c)
@@ -353,12 +356,14 @@ func finish(sum *Summary, col *collector, start time.Time, c *counters) {
 
 // chainsOf returns candidate call-index chains leading from an initial state to key:
 // the primary BFS chain, and variants using an alternative last hop.
-func chainsOf(parents map[string][]parent, key string) [][]int {
+func chainsOf(parents map[string][]parent, key string) ([][]int, string) {
+	root := key
 	primary := func(k string) []int {
 		var rev []int
 		for {
 			ps := parents[k]
 			if len(ps) == 0 {
+				root = k
 				break
 			}
 			rev = append(rev, ps[0].call)
@@ -374,14 +379,21 @@ func chainsOf(parents map[string][]parent, key string) [][]int {
 	}
 	ps := parents[key]
 	if len(ps) == 0 {
-		return [][]int{{}}
+		return [][]int{{}}, key
 	}
+	// all candidate chains must start from the same initial state: keep those sharing the first root
 	var out [][]int
+	first := ""
 	for _, p := range ps {
 		c := append(primary(p.key), p.call)
-		out = append(out, c)
+		if first == "" {
+			first = root
+		}
+		if root == first {
+			out = append(out, c)
+		}
 	}
-	return out
+	return out, first
 }
 
 type worker struct {
@@ -444,6 +456,9 @@ func (w *worker) process(jb *job) (replayed, skipped, changing int64, ok bool) {
 		tr := &jb.trs[i]
 		call := &w.calls[i]
 		ex := Example{State: jb.state.Raw, History: hist, Call: call.Raw, Expected: trRaw(tr)}
+		if jb.init != nil {
+			ex.Init = jb.init.Raw
+		}
 		w.sl(ex, true)
 		obs := inst.Apply(call)
 		w.sl(ex, false)
